@@ -1,4 +1,5 @@
 """C03 Stored diagram well-formed; level bookkeeping"""
+import eswap
 import evlm
 import ewho
 import ereduce
@@ -55,5 +56,12 @@ def run(ctx):
                 "their own vector; the index-based and the pointer-based manager's copies are the same program.")
     nv = evlm.run(ctx, F)
     ctx.floor("E-VLM", "interpreted VarLevelMap situations", nv, 38)
+    ctx.explain("E-TABLE.swap: the per-node body of level_swap is interpreted on a model store (BDD, BCDD with all tag "
+                "combinations, ZBDD): a node without a child on the lower level moves down unchanged; otherwise it keeps its "
+                "identity, is relabelled and re-inserted at the new upper level with children rebuilt from the grand-cofactors "
+                "through the kind's own reduce, denoting the same function of (a, b, sub-functions) under the new order; an "
+                "equal node of the old upper level is reused; dead old children are removed exactly once.")
+    nsw = eswap.run(ctx, F)
+    ctx.floor("E-TABLE.swap", "interpreted level_swap situations", nsw, 80)
     ctx.not_decided = ("uniqueness/reducedness of the stored graph after arbitrary histories; minimal node counts; "
                        "the then-edge regularity of complement-edge nodes (planned tag-lattice rule)")
